@@ -18,7 +18,7 @@ ANCHORS = ["runlengtharray.py::RunLengthArray._get_position", "runlengtharray.py
            "runlengtharray.py::RunLengthArray.__getitem__", "mixin.py::NPSIndexable.__getitem__"]
 KINDS = ["int", "list", "array", "boolarray", "boollist", "rlmask", "cmpmask", "slice", "windows"]
 FLOOR_TAGS = ["k:" + k for k in KINDS] + ["step:+1", "step:+k", "step:-1", "step:-k", "bounds:oob", "bounds:in", "result:empty", "mask:allfalse", "mask:alltrue", "int:negative",
-                                          "kind:b", "kind:i", "kind:u", "kind:f", "index:readonly", "step:huge", "windows:narrow-dtype", "windows:len-exceeds-dtype"]
+                                          "kind:b", "kind:i", "kind:u", "kind:f", "index:readonly", "receiver:subclass", "step:huge", "windows:narrow-dtype", "windows:len-exceeds-dtype"]
 FLOOR_MONITORS = ["c15:compare", "c15:canonical", "inv:rla", "c15:arguments-unchanged"]
 FP_STRICT = True       # a floating-point event inside the library that the dense computation does not have is a violation (shard.FpMonitor)
 N_RANDOM = {"quick": 24000, "thorough": 300000}
@@ -26,6 +26,20 @@ N_RANDOM = {"quick": 24000, "thorough": 300000}
 
 def setup(lib):
     contracts.attach(lib, which=("rla", "ragged"))
+
+
+_SUB = []
+
+
+def _subclass():
+    if not _SUB:
+        class UserRunLengthArray(CTX.lib.RunLengthArray):
+            """a user subclass: one extra method, nothing overridden"""
+
+            def n_runs(self):
+                return len(self.values)
+        _SUB.append(UserRunLengthArray)
+    return _SUB[0]
 
 
 def mk_case(dtype, vals, kind, idx, **kw):
@@ -47,7 +61,11 @@ def run(case):
     L = len(v)
     kind, idx = case["kind"], case["idx"]
     tags = ["k:" + kind, "kind:" + dt.kind] + tags_swap
-    r = RLA.from_array(v.copy())
+    if case.get("subclass"):
+        r = _subclass().from_array(v.copy())           # an instance of a user subclass (masks stay plain run-length arrays)
+        tags.append("receiver:subclass")
+    else:
+        r = RLA.from_array(v.copy())
     joined = None
     args = []          # the caller's index arrays: (array, copy taken before the call)
 
@@ -167,7 +185,8 @@ def run(case):
 def gen_case(rng, tier, kind=None, dtype=None):
     dtype = dtype or rng.choice(gen.DT_ALL)
     maxlen = 12 if tier == "quick" else 50
-    v, style = rl.gen_runs(rng, dtype, "close" if (np.dtype(dtype).kind == "f" and rng.random() < 0.3) else "small", maxlen)
+    isf = np.dtype(dtype).kind == "f"
+    v, style = rl.gen_runs(rng, dtype, rng.choice(["close", "nonfinite", "extreme"]) if (isf and rng.random() < 0.45) else ("extreme" if rng.random() < 0.1 else "small"), maxlen)
     L = len(v)
     kind = kind or rng.choice(KINDS)
     vals = v.tolist()
@@ -228,6 +247,15 @@ def directed():
         for st in (2, -1, -2, 3):
             yield mk_case("float64", vals, "slice", slice(None, None, st))
     yield mk_case("float32", [1000.0, 1000.001, 1000.001, 1000.002, 1000.0], "slice", slice(None, None, -1))
+    # infinities / huge values of opposite sign that become neighbours only after striding
+    inf = float("inf")
+    for dtype, vals in (("float64", [inf, 1.0, inf, 2.0, inf]), ("float64", [-inf, 0.0, -inf, -inf, 5.0, -inf]), ("float32", [3e38, 1.0, -3e38, 1.0, 3e38]), ("float64", [1.7e308, 0.5, -1.7e308, 0.5, 1.7e308]),
+                        ("float32", [inf, -inf, inf, -inf]), ("float64", [float("nan"), 1.0, float("nan"), 1.0, inf, 1.0, inf])):
+        for s in (slice(None, None, 2), slice(None, None, -2), slice(1, None, 2), slice(None, None, 3), slice(None, None, -1), slice(4, None, -2)):
+            yield mk_case(dtype, vals, "slice", s)
+        yield mk_case(dtype, vals, "boolarray", [i % 2 == 0 for i in range(len(vals))])
+        yield mk_case(dtype, vals, "rlmask", [i % 2 == 0 for i in range(len(vals))])
+        yield mk_case(dtype, vals, "array", [0, 2, 4 % len(vals), 0])
     yield mk_case("int64", v, "cmpmask", 0, op="gt")
     yield mk_case("int64", v, "cmpmask", 1, op="ne")
     yield mk_case("int64", v, "cmpmask", 100, op="gt")
@@ -256,7 +284,10 @@ def _with_swap(rng, c):
 
 
 def random_case(rng, tier):
-    return _with_swap(rng, gen_case(rng, tier))
+    c = _with_swap(rng, gen_case(rng, tier))
+    if rng.random() < 0.1:
+        c["subclass"] = True
+    return c
 
 
 def classify(case, res):
